@@ -104,7 +104,29 @@ def run_harness(driver, scripts_path, outdir, race=False, timeout=1800, extra_en
                 raise MachineryError("harness restarted too often")
             continue
         if p.returncode != 0:
-            raise MachineryError(f"harness driver {driver} failed (exit {p.returncode}):\n" + (p.stdout + p.stderr)[-4000:])
+            out = p.stdout + p.stderr
+            crashed = ("panic:" in out or "fatal error:" in out) and env.get("VERIF_FLUSH")
+            if crashed and restarts < 200:
+                # the process died inside the code under test (a panic on a goroutine the harness does not
+                # own, or a fatal runtime error): close the unfinished trace with a crash event and resume
+                restarts += 1
+                blines = read_lines(bounds) if os.path.exists(bounds) else []
+                done = len(blines)
+                last_e = json.loads(blines[-1])["e"] if blines else 0
+                tl = open(trace).read().split("\n") if os.path.exists(trace) else []
+                complete = [x for x in tl[:-1]] if tl else []
+                ids = [json.loads(x)["id"] for x in read_lines(scripts_path)]
+                msg = [ln for ln in out.splitlines() if ln.startswith("panic:") or ln.startswith("fatal error:")][:1]
+                crash_ev = json.dumps({"op": "panic", "during": "crash", "msg": (msg[0] if msg else "crash")[:200], "ctx": "process"})
+                with open(trace, "w") as f:
+                    f.write("\n".join(complete + [crash_ev]) + "\n")
+                with open(bounds, "a") as f:
+                    f.write(json.dumps({"s": last_e + 1, "e": len(complete) + 1, "id": ids[done]}) + "\n")
+                env["VERIF_RESUME_FROM"] = str(done + 1)
+                if done + 1 >= len(ids):
+                    break
+                continue
+            raise MachineryError(f"harness driver {driver} failed (exit {p.returncode}):\n" + out[-4000:])
         break
     n = sum(1 for _ in open(bounds))
     nev = sum(1 for _ in open(trace))
@@ -187,18 +209,13 @@ def tla_unquote(s):
     return json.loads('"' + s + '"')
 
 
-SCRIPT_RE = re.compile(r'^<<"SCRIPT", "(.*)">>$')
+SCRIPT_RE = re.compile(r'^<<\s*"SCRIPT",\s*"(.*?)"\s*>>$', re.M | re.S)
 VERDICT_RE = re.compile(r'^<<\s*"VERDICT",\s*(-?\d+),\s*(\d+),\s*"([^"]*)",\s*"(.*?)"\s*>>$', re.M | re.S)
 
 
 def scripts_from_tlc(stdout):
     """Extract the printed scripts (lists of op dicts)."""
-    out = []
-    for line in stdout.splitlines():
-        m = SCRIPT_RE.match(line)
-        if m:
-            out.append(json.loads(tla_unquote(m.group(1))))
-    return out
+    return [json.loads(tla_unquote(m.group(1))) for m in SCRIPT_RE.finditer(stdout)]
 
 
 def drop_prefixes(scripts):
